@@ -24,6 +24,7 @@ import Driver.StmtDrv
 import Driver.InitDrv
 import Driver.TagDrv
 import Driver.DeclarationDrv
+import Driver.BodyDrv
 /-! `psymodel <component>`: reads one case per line on stdin, answers one line per case. -/
 
 partial def loop (h : IO.FS.Stream) (out : IO.FS.Stream) (f : String → String) : IO Unit := do
@@ -59,6 +60,7 @@ def main (args : List String) : IO UInt32 := do
   | ["init"] => loop stdin stdout Driver.InitDrv.handle; return 0
   | ["tag"] => loop stdin stdout Driver.TagDrv.handle; return 0
   | ["declaration"] => loop stdin stdout Driver.DeclarationDrv.handle; return 0
+  | ["body"] => loop stdin stdout Driver.BodyDrv.handle; return 0
   | ["compat"] => loop stdin stdout Driver.CompatDrv.handle; return 0
   | ["expr"] => loop stdin stdout Driver.ExprDrv.handle; return 0
   | ["catalog"] => loop stdin stdout Driver.CatalogDrv.handle; return 0
